@@ -21,7 +21,8 @@ BOUNDS = ("f: 1..2 runs, total text length <= 3 (quick) / 4 (thorough), every ch
           "(letters a b A, ',', ' ', newline, CR; digits for zfill/isdigit); widths symbolic 0..len+2; method + concrete "
           "arguments from a 65-entry catalogue (native split / regex split / splitlines / ljust / rjust and 25 delegated "
           "str methods)")
-STUBS = ["CrossHair's models of the str methods and of re (violations are replayed with CPython's str / re)"]
+STUBS = ["CrossHair's models of the str methods and of re (violations are replayed with CPython's str / re); regex separators that "
+         "can match the empty string are outside (CrossHair 0.0.110's re model and CPython disagree on empty matches in split)"]
 
 ATT_LAYOUTS = [({"fg": 31}, {"fg": 31, "bold": True}), ({"bg": 44}, {}), ({"fg": 31, "bg": 44}, {"fg": 31, "bg": 44})]
 
